@@ -1317,14 +1317,23 @@ impl SparqlDatabase {
             .collect();
 
         for (triples, dict_arc, pref) in partial_results {
-            for t in triples {
-                self.add_triple(t);
-            }
-            let mut self_dict = self.dictionary.write().unwrap();
+            // Chunk-local identifiers are unrelated to this database's identifiers:
+            // translate every term through its lexical form before storing the triple.
             let other_dict = dict_arc.read().unwrap();
-            self_dict.merge(&other_dict);
+            for t in triples {
+                let reencoded = {
+                    let mut self_dict = self.dictionary.write().unwrap();
+                    (
+                        self_dict.reencode_from(&other_dict, t.subject),
+                        self_dict.reencode_from(&other_dict, t.predicate),
+                        self_dict.reencode_from(&other_dict, t.object),
+                    )
+                };
+                if let (Some(subject), Some(predicate), Some(object)) = reencoded {
+                    self.add_triple(Triple { subject, predicate, object });
+                }
+            }
             drop(other_dict);
-            drop(self_dict);
             for (k, v) in pref {
                 self.prefixes.insert(k, v);
             }
